@@ -31,6 +31,7 @@ type recConn struct {
 	mu    sync.Mutex
 	wrote bytes.Buffer
 	seg   int // 0 as is; 1 one byte at a time for the first 600 bytes; 2 three-byte pieces; 3 split after 5 bytes
+	frag  int // > 0: the ClientHello (first write, one handshake record) goes out as TWO TLS records cut after `frag` payload bytes
 	sent  int
 }
 
@@ -42,7 +43,22 @@ func (c *recConn) Write(b []byte) (int, error) {
 	start := c.sent
 	c.sent += len(b)
 	seg := c.seg
+	frag := c.frag
 	c.mu.Unlock()
+	if frag > 0 && start == 0 && len(b) > 5 && b[0] == 22 && 5+(int(b[3])<<8|int(b[4])) == len(b) && frag < len(b)-5 {
+		// same handshake message, re-framed over two records (RFC 8446 5.1 allows it; crypto/tls accepts it)
+		p := b[5:]
+		var out []byte
+		out = append(out, 22, b[1], b[2], byte(frag>>8), byte(frag))
+		out = append(out, p[:frag]...)
+		rest := len(p) - frag
+		out = append(out, 22, b[1], b[2], byte(rest>>8), byte(rest))
+		out = append(out, p[frag:]...)
+		if _, err := c.Conn.Write(out); err != nil {
+			return 0, err
+		}
+		return len(b), nil
+	}
 	if seg == 0 || start > 600 {
 		return c.Conn.Write(b)
 	}
@@ -193,6 +209,7 @@ type clientCfg struct {
 	sni     string
 	peer    string // local address to dial from (127.0.0.x or ::1)
 	seg     int
+	frag    int
 	minVer  uint16
 	maxVer  uint16
 	ciphers []uint16
@@ -210,7 +227,7 @@ func dialProxy(e *e2eEnv, c clientCfg) (net.Conn, *recConn, string, error) {
 	if err != nil {
 		return nil, nil, "", err
 	}
-	rc := &recConn{Conn: raw, seg: c.seg}
+	rc := &recConn{Conn: raw, seg: c.seg, frag: c.frag}
 	pool := x509.NewCertPool()
 	pool.AppendCertsFromPEM(e.certPEM)
 	raw.SetDeadline(time.Now().Add(20 * time.Second))
